@@ -27,6 +27,9 @@ VERUS = os.environ.get('VERUS', 'verus')
 VERIF_KINDS = [
     ('postcondition not satisfied', 'post'),
     ('precondition not satisfied', 'pre'),
+    ('precondition not met', 'bounds'),          # e.g. `index in bounds for this access` on a slice / str index
+    ('requirement not met', 'pre'),
+    ('cannot show this call will not unwind', 'pre'),
     ('invariant not satisfied before loop', 'inv-entry'),
     ('invariant not satisfied at end of loop body', 'inv-step'),
     ('loop invariant not satisfied', 'inv'),
